@@ -505,6 +505,7 @@ impl<'a> Exec<'a> {
             Step::CleanUp => 12,
             Step::CleanUpRange { .. } => 13,
             Step::Touch { .. } => 14,
+            Step::Poke { .. } => 15,
         };
         let cls = match s.class {
             Class::NoPath(n) => n,
@@ -877,6 +878,14 @@ impl<'a> Exec<'a> {
             // model vs independent raw walk
             let hm = h.map(|x| (x.frame, x.size.bytes(), x.leaf_flags));
             let np = m.as_ref().map_or(false, |x| x.flags & 1 == 0);
+            if m.as_ref().map_or(false, |x| x.frame & (x.size.bytes() - 1) != 0) {
+                // inside a foreign huge-page entry with a misaligned address: what translate reports
+                // and what hardware does with it (reserved-bit fault) is outside the documentation;
+                // translate_page below must still report InvalidFrameAddress
+                if o.code == Code::Panic {
+                    return Err(viol(&["C01"], "panic", i, format!("translate({va:#x}) panicked")));
+                }
+            } else {
             // a leaf without the PRESENT bit is not a translation for the hardware
             let mm = if np { None } else { m.as_ref().map(|x| (x.frame, x.size.bytes(), x.flags)) };
             if hm != mm {
@@ -902,6 +911,7 @@ impl<'a> Exec<'a> {
                         ));
                     }
                 }
+            }
             }
             for (j, sz) in Size::ALL.iter().enumerate() {
                 let st = &steps[4 * k + 1 + j];
@@ -948,6 +958,18 @@ impl<'a> Exec<'a> {
             }
         }
         self.add_probes(step);
+        if let Step::Poke { size, page, raw } = step {
+            let full = Path::of(*page, size.path_len());
+            if *size == Size::K4 || self.rs.model.class(*page, *size) != Class::Free {
+                self.stats.filtered += 1;
+                return Ok(());
+            }
+            let parent = self.rs.model.tables[&full.parent()].frame;
+            world().mem.write_u64(parent + 8 * full.last() as u64, *raw);
+            self.rs.model.leaves.insert(full, crate::model::Leaf { frame: *raw & ADDR & !0x1000, flags: *raw & (!ADDR | 0x1000) });
+            self.stats.probe("foreign_misaligned_huge_entry");
+            return self.probe_check(i);
+        }
         if let Step::Translate { addr } = step {
             // decided by the probe machinery: the exact address joins the probe set
             if !self.probes.contains(addr) {
